@@ -83,6 +83,16 @@ pub open spec fn from_items(s: Seq<TextRange>, items: Seq<DescItem>) -> bool {
 }
 /// "grow outward": each range is contained in the next one
 pub open spec fn chain_grows(s: Seq<TextRange>) -> bool { forall|i: int| 0 <= i && i + 1 < s.len() ==> off_inside(#[trigger] s[i], s[i + 1]) }
+/// … and differs from it: "selection ranges STRICTLY grow outward"
+pub open spec fn chain_grows_strictly(s: Seq<TextRange>) -> bool {
+    forall|i: int| 0 <= i && i + 1 < s.len() ==> off_inside(#[trigger] s[i], s[i + 1]) && s[i] != s[i + 1]
+}
+/// no range twice in a row
+pub open spec fn consecutive_differ(s: Seq<TextRange>) -> bool { forall|i: int| 0 <= i && i + 1 < s.len() ==> #[trigger] s[i] != s[i + 1] }
+pub proof fn lemma_strict_chain(s: Seq<TextRange>)
+    requires chain_grows(s), consecutive_differ(s),
+    ensures chain_grows_strictly(s),
+{ }
 /// what add_detail_ranges appended
 pub open spec fn appended(old_r: Seq<TextRange>, new_r: Seq<TextRange>) -> Seq<TextRange> { new_r.subrange(old_r.len() as int, new_r.len() as int) }
 
@@ -103,4 +113,28 @@ pub proof fn lemma_detail_chain(items: Seq<DescItem>, s: Seq<TextRange>, o: Text
         assert(rlen(a) <= rlen(b));
         assert(off_inside(items[ka].range, items[kb].range) || off_inside(items[kb].range, items[ka].range));
     }
+}
+
+/// the half-open sense is NEEDED: with inclusive containment (`contains_inclusive`, start <= offset <= end) two adjacent
+/// items [0, 5) and [5, 9) are laminar (disjoint), both "contain" offset 5, and sorted by length they are [5, 9), [0, 5):
+/// the second does not contain the first — the chain does not grow.
+pub open spec fn has_inclusive(r: TextRange, o: TextSize) -> bool { r.start.raw <= o.raw && o.raw <= r.end.raw }
+pub proof fn lemma_inclusive_containment_breaks_the_chain()
+    ensures ({
+        let a = TextRange { start: TextSize { raw: 0 }, end: TextSize { raw: 5 } };
+        let b = TextRange { start: TextSize { raw: 5 }, end: TextSize { raw: 9 } };
+        let o = TextSize { raw: 5 };
+        let items = seq![DescItem { range: a }, DescItem { range: b }];
+        &&& laminar(items) && from_items(seq![b, a], items) && sorted_by_len(seq![b, a])
+        &&& has_inclusive(a, o) && has_inclusive(b, o)
+        &&& !chain_grows(seq![b, a])
+    }),
+{
+    let a = TextRange { start: TextSize { raw: 0 }, end: TextSize { raw: 5 } };
+    let b = TextRange { start: TextSize { raw: 5 }, end: TextSize { raw: 9 } };
+    let items = seq![DescItem { range: a }, DescItem { range: b }];
+    let s = seq![b, a];
+    assert(items[0].range == a && items[1].range == b);
+    assert(s[0] == b && s[1] == a);
+    assert(!off_inside(s[0int], s[0int + 1]));
 }
